@@ -919,6 +919,61 @@ pub fn gen(ctx: &mut Ctx) {
         if let Some(p) = build_pkg(&mut src, &[], rpm::CompressionType::None) {
             ctx.req(&request(&p, None, "/target", &jail));
         }
+        // NAME_MAX: components of 255 bytes (the longest name a Linux file system takes) and 256 bytes (ENAMETOOLONG), as a
+        // directory name, a base name, a link name, in the middle of a path, under a parent that still has to be created
+        // (`create_dir_all` then fails AFTER creating the ancestors), multi-byte characters across the limit
+        let n255 = "n".repeat(255);
+        let n256 = "N".repeat(256);
+        let e255 = format!("{}x", "é".repeat(127));            // 254 + 1 bytes
+        let e256 = "é".repeat(128);                              // 256 bytes, 128 characters
+        for files in [
+            vec![reg(&format!("/{}/f", n255), 0o644, b"in a 255-byte directory"), reg(&format!("/d/{}", n255), 0o600, b"255-byte base name"), lnk(&format!("/l/{}", e255), "f")],
+            vec![dir(&format!("/{}", n255), 0o750), reg(&format!("/{}/{}/{}", n255, e255, n255), 0o644, b"three long components")],
+            vec![reg("/a/ok", 0o644, b"ok"), reg(&format!("/{}/f", n256), 0o644, b"in a 256-byte directory")],
+            vec![reg("/a/ok", 0o644, b"ok"), reg(&format!("/b/{}", n256), 0o644, b"256-byte base name")],
+            vec![reg("/a/ok", 0o644, b"ok"), reg(&format!("/p/q/{}/r/f", n256), 0o644, b"ancestors are created first")],
+            vec![reg("/a/ok", 0o644, b"ok"), dir(&format!("/p/q/{}", n256), 0o755)],
+            vec![reg("/a/ok", 0o644, b"ok"), dir(&format!("/p/q/{}/below", e256), 0o755)],
+            vec![reg("/a/ok", 0o644, b"ok"), lnk(&format!("/z/{}", n256), "/decoy")],
+            vec![lnk("/a/l", &format!("../{}", n256)), reg("/a/m", 0o644, b"after a link with a 256-byte target component")],
+        ] {
+            if let Some(p) = build_pkg(&mut src, &files, rpm::CompressionType::None) {
+                ctx.req(&request(&p, None, "/target", &jail));
+            }
+        }
+        for spec in [
+            hs(&["/", &format!("/p/q/{}/", n256)], vec![hf(0, "f", REG | 0o644, "", "x")]),
+            hs(&["/", &format!("/{}/", n255)], vec![hf(1, "f", REG | 0o644, "", "x"), hf(0, &n256, REG | 0o644, "", "y")]),
+            hs(&["/"], vec![hf(0, &n256, LNK | 0o777, "/decoy", ""), hf(0, &format!("{}/file", n256), REG | 0o644, "", "below a link that cannot exist")]),
+            hs(&["/"], vec![hf(0, "l", LNK | 0o777, &n256, ""), hf(0, "l", REG | 0o644, "", "replaces a link to a 256-byte name")]),
+        ] {
+            ctx.req(&request(&hostile_pkg(&spec), None, "/target", &jail));
+        }
+        // names that are not UTF-8: the header strings are decoded lossily (U+FFFD), the file is created under THAT name;
+        // stripped entries are found by index, named entries carry the raw bytes and name no header file
+        for named in [false, true] {
+            let mut s = HSpec {
+                dirnames: vec![b("/"), b"/d\xff/\xfe/".to_vec()],
+                files: vec![
+                    HFile { dir_index: 0, base: b"a\xe9b".to_vec(), mode: REG | 0o644, linkto: vec![], content: b("latin1 name") },
+                    HFile { dir_index: 1, base: b"\xf0\x9fx".to_vec(), mode: REG | 0o600, linkto: vec![], content: b("truncated sequence") },
+                    HFile { dir_index: 0, base: b("l"), mode: LNK | 0o777, linkto: b"t\xc0\x80".to_vec(), content: vec![] },
+                ],
+                ..Default::default()
+            };
+            s.named = named;
+            ctx.req(&request(&hostile_pkg(&s), None, "/target", &jail));
+        }
+        // builder-made packages with the destination spelled relatively / through ".." / through a link of the caller's
+        let mut jl = jail.clone();
+        jl.push((b("/work/zzroot"), JEnt::Link(b("/"))));
+        let files = vec![reg("/top", 0o644, b"top-level"), dir("/d", 0o2750), reg("/d/e/f", 0o4711, b"nested"), lnk("/d/l", "../top"), lnk("/abs", "/etc/passwd")];
+        if let Some(p) = build_pkg(&mut src, &files, rpm::CompressionType::None) {
+            for via in ["rel", "dotdot", "link"] {
+                ctx.req(&format!("{} via={}", request(&p, None, "/target", if via == "link" { &jl } else { &jail }), via));
+                ctx.req(&format!("{} via={}", request(&p, None, "/work/out", if via == "link" { &jl } else { &jail }), via));
+            }
+        }
     }
     // seeded: benign builder-made packages and random hostile ones
     let n_benign = ctx.q(70u64, 1200) / sn;
@@ -930,6 +985,12 @@ pub fn gen(ctx: &mut Ctx) {
                 if let (Some(pc), Ok(raw)) = (build_pkg(&mut src, &files, rpm::CompressionType::Gzip), rpm::Package::parse(&mut &p[..])) {
                     ctx.req(&request(&pc, Some(&raw.content), "/target", &jail));
                 }
+            } else if i % 3 == 1 {
+                // every third builder-made package: the caller spells the destination in another way
+                let via = ["rel", "dotdot", "link"][(i / 3 % 3) as usize];
+                let mut jl = jail.clone();
+                jl.push((b("/work/zzroot"), JEnt::Link(b("/"))));
+                ctx.req(&format!("{} via={}", request(&p, None, "/target", if via == "link" { &jl } else { &jail }), via));
             } else {
                 ctx.req(&request(&p, None, "/target", &jail));
             }
